@@ -182,7 +182,7 @@ Print Assumptions C08_rest_all_in_one_is_concatenation.
 (* ... and for new, outside (a superset of) the input class of K_embed_order: no struct of the package embeds a struct *)
 Theorem C08_new_all_in_one_is_concatenation : forall c (cT : string -> cmd) hw o disk st types fmap sm,
   no_embedding (hand_of hw) ->
-  (forall T, c_types (cT T) = [T] /\ c_file (cT T) = "" /\ c_getset (cT T) = c_getset c /\ c_json (cT T) = c_json c /\ c_opt (cT T) = c_opt c) ->
+  (forall T, c_types (cT T) = [T] /\ c_file (cT T) = "" /\ c_getset (cT T) = c_getset c /\ c_json (cT T) = c_json c /\ c_optflags (cT T) = c_optflags c) ->
   separate c = false ->
   confirm_types (list_types_of CNew) c o (mk_view hw disk []) = Some (types, fmap) ->
   generate (new_make c) nrender (list_types_of CNew) c o hw disk st = Some sm ->
@@ -207,7 +207,7 @@ Print Assumptions C08_new_all_in_one_is_concatenation.
    overlay uses, continue) *)
 Theorem C08_new_all_in_one_is_sequential : forall c (cT : string -> cmd) hw disk fmap o st st' types sm,
   c_getset c = true ->
-  (forall T, c_types (cT T) = [T] /\ c_file (cT T) = "" /\ c_getset (cT T) = c_getset c /\ c_json (cT T) = c_json c /\ c_opt (cT T) = c_opt c) ->
+  (forall T, c_types (cT T) = [T] /\ c_file (cT T) = "" /\ c_getset (cT T) = c_getset c /\ c_json (cT T) = c_json c /\ c_optflags (cT T) = c_optflags c) ->
   separate c = false ->
   confirm_types (list_types_of CNew) c o (mk_view hw disk []) = Some (types, fmap) ->
   NoDup (map (nm c hw fmap) types) ->
@@ -260,7 +260,7 @@ Print Assumptions C08_map_all_in_one_is_concatenation.
 
 Theorem C08_new_noget_all_in_one_is_concatenation : forall c (cT : string -> cmd) hw disk fmap o st st' types sm,
   c_getset c = false ->
-  (forall T, c_getset (cT T) = c_getset c /\ c_json (cT T) = c_json c /\ c_opt (cT T) = c_opt c) ->
+  (forall T, c_getset (cT T) = c_getset c /\ c_json (cT T) = c_json c /\ c_optflags (cT T) = c_optflags c) ->
   separate c = false ->
   confirm_types (list_types_of CNew) c o (mk_view hw disk []) = Some (types, fmap) ->
   generate (new_make c) nrender (list_types_of CNew) c o hw disk st = Some sm ->
@@ -327,7 +327,7 @@ Theorem C08_new_permutation : forall c c' hw o disk st st',
   specified c = true -> specified c' = true ->
   Permutation (c_types c) (c_types c') -> c_file c = c_file c' -> c_sub c = c_sub c' ->
   c_star c = false -> c_star c' = false ->
-  c_getset c = c_getset c' -> c_json c = c_json c' -> c_opt c = c_opt c' ->
+  c_getset c = c_getset c' -> c_json c = c_json c' -> c_optflags c = c_optflags c' ->
   match generate (new_make c) nrender (list_types_of CNew) c o hw disk st,
         generate (new_make c') nrender (list_types_of CNew) c' o hw disk st' with
   | Some sm, Some sm' => map nb (listing sm) = map nb (listing sm')
@@ -373,7 +373,7 @@ Theorem C08_new_noget_permutation : forall c c' hw disk o st st',
   c_getset c = false -> c_getset c' = false ->
   specified c = true -> specified c' = true ->
   Permutation (c_types c) (c_types c') -> c_file c = c_file c' -> c_sub c = c_sub c' ->
-  c_star c = false -> c_star c' = false -> c_json c = c_json c' -> c_opt c = c_opt c' ->
+  c_star c = false -> c_star c' = false -> c_json c = c_json c' -> c_optflags c = c_optflags c' ->
   match generate (new_make c) nrender (list_types_of CNew) c o hw disk st,
         generate (new_make c') nrender (list_types_of CNew) c' o hw disk st' with
   | Some sm, Some sm' => map nb (listing sm) = map nb (listing sm')
@@ -415,10 +415,10 @@ Print Assumptions C08_refuted_K_merge_stray_comment.
 (* ---- non-vacuity: the hypotheses of the concatenation theorems are met by a two-type package *)
 Definition ex_cmd_file : cmd :=
   {| c_sub := CNew; c_line := "shoot new -getset -file=a.go"; c_types := []; c_star := false; c_file := "a.go"; c_sepflag := false;
-     c_getset := true; c_json := false; c_opt := false; c_ejson := false; c_etext := false; c_toonly := false; c_fromonly := false |}.
+     c_getset := true; c_json := false; c_opt := false; c_short := false; c_ejson := false; c_etext := false; c_toonly := false; c_fromonly := false |}.
 Definition ex_cmd_single (T : string) : cmd :=
   {| c_sub := CNew; c_line := "shoot new -getset -type=" ++ T; c_types := [T]; c_star := false; c_file := ""; c_sepflag := false;
-     c_getset := true; c_json := false; c_opt := false; c_ejson := false; c_etext := false; c_toonly := false; c_fromonly := false |}.
+     c_getset := true; c_json := false; c_opt := false; c_short := false; c_ejson := false; c_etext := false; c_toonly := false; c_fromonly := false |}.
 
 Example C08_example_guard : no_embedding (hand_of hw_ab).
 Proof. apply no_embeddingb_ok. reflexivity. Qed.
@@ -436,7 +436,7 @@ Proof. vm_compute. split; reflexivity. Qed.
 
 Example C08_example_single_commands : forall T,
   c_types (ex_cmd_single T) = [T] /\ c_file (ex_cmd_single T) = "" /\ c_getset (ex_cmd_single T) = c_getset ex_cmd_file /\
-  c_json (ex_cmd_single T) = c_json ex_cmd_file /\ c_opt (ex_cmd_single T) = c_opt ex_cmd_file.
+  c_json (ex_cmd_single T) = c_json ex_cmd_file /\ c_optflags (ex_cmd_single T) = c_optflags ex_cmd_file.
 Proof. intros. repeat split. Qed.
 
 (* the embedding witness of K_embed_order satisfies the hypotheses of C08_new_all_in_one_is_sequential *)
